@@ -1,6 +1,6 @@
 (* C05 - Packet wire codec is exact, total and strict.
-   Statements only; every theorem is closed by [exact] of a lemma of Proofs/Packet.v and followed by
-   Print Assumptions.  See DESIGN.md section 6 (C05).
+   Statements only; every theorem is closed by [exact] of a lemma of Proofs/Packet.v or
+   Proofs/PacketGap.v and followed by Print Assumptions.  See DESIGN.md section 6 (C05).
 
    The model (Model/Packet.v) transcribes Packet::encode / Packet::decode of /repo/src/packet/mod.rs.
    External behaviour is a premise of the theorems, never an axiom:
@@ -17,7 +17,7 @@
      size_ok data             MIN_PACKET_SIZE <= |data| <= MAX_PACKET_SIZE
      header_ok ks local data  size_ok, protocol id and version as expected. *)
 From Coq Require Import List NArith Arith Bool.
-From Discv5V Require Import Generated.Params Lib.Bytes Model.Packet Proofs.Packet.
+From Discv5V Require Import Generated.Params Lib.Bytes Model.Packet Proofs.Packet Proofs.PacketGap.
 Import ListNotations.
 
 (* ---- the constants of /repo the theorems depend on (re-checked against the regenerated
@@ -111,6 +111,98 @@ Proof.
   vm_compute. reflexivity.
 Qed.
 Print Assumptions C05_decode_encode_hypotheses_hold.
+
+(* ---- exact, the other direction: whatever Packet::decode accepts re-encodes (for the same node
+        id) to the received datagram, the authenticated bytes it returns are
+        Packet::authenticated_data of the returned packet, and that packet is well formed.
+        Premises, all visible here:
+        * the datagram consists of bytes (< 256) and so does the keystream used for it (the model's
+          byte strings are lists of N; to_be (from_be x) = x needs bytes);
+        * the record decoder is canonical: a record it returns encodes to exactly the bytes it
+          was given.  This premise is only used for a handshake that carries a record (next
+          theorems) and it cannot be dropped: see
+          C05_noncanonical_handshake_accepted_observation at the end of the file. ---- *)
+Theorem C05_encode_decode :
+  forall (ks : bytes -> bytes -> nat -> N) (enr : Type)
+         (enr_encode : enr -> bytes) (enr_decode : bytes -> option enr)
+         (local data : bytes) (p : packet enr) (aad : bytes),
+    (forall b e, enr_decode b = Some e -> enr_encode e = b) ->
+    bytes_ok data ->
+    (forall i, byte_ok (ks (firstn 16 local) (firstn 16 data) i)) ->
+    decode ks enr_decode local data = Ok (p, aad) ->
+    encode ks enr_encode p local = data
+    /\ authenticated_data enr_encode p = aad
+    /\ packet_wf enr p.
+Proof. exact encode_decode. Qed.
+Print Assumptions C05_encode_decode.
+
+(* the record of a packet: only a handshake can carry one *)
+Theorem C05_kind_record_meaning :
+  forall (enr : Type) (k : pkind enr),
+    kind_record k = match k with KHandshake _ _ _ r => r | _ => None end.
+Proof. reflexivity. Qed.
+Print Assumptions C05_kind_record_meaning.
+
+(* without a record (MESSAGE, WHOAREYOU, handshake without record) nothing is asked of the record
+   codec: the codec is exact in both directions for every [enr_encode], [enr_decode] *)
+Theorem C05_encode_decode_no_record :
+  forall (ks : bytes -> bytes -> nat -> N) (enr : Type)
+         (enr_encode : enr -> bytes) (enr_decode : bytes -> option enr)
+         (local data : bytes) (p : packet enr) (aad : bytes),
+    bytes_ok data ->
+    (forall i, byte_ok (ks (firstn 16 local) (firstn 16 data) i)) ->
+    decode ks enr_decode local data = Ok (p, aad) ->
+    kind_record (p_kind p) = None ->
+    encode ks enr_encode p local = data
+    /\ authenticated_data enr_encode p = aad
+    /\ packet_wf enr p.
+Proof. exact encode_decode_no_record. Qed.
+Print Assumptions C05_encode_decode_no_record.
+
+(* the general form, and its converse: for an accepted datagram (whose authenticated data are
+   bytes) the packet re-encodes to the datagram IF AND ONLY IF the record it carries, if any,
+   encodes to exactly the record bytes of the auth-data (the bytes after signature and key) *)
+Theorem C05_encode_decode_iff_record_canonical :
+  forall (ks : bytes -> bytes -> nat -> N) (enr : Type)
+         (enr_encode : enr -> bytes) (enr_decode : bytes -> option enr)
+         (local data : bytes) (p : packet enr) (aad : bytes),
+    decode ks enr_decode local data = Ok (p, aad) ->
+    let record_is_canonical :=
+      match kind_record (p_kind p) with
+      | Some e => enr_encode e
+                  = skipn (34 + sig_size_of ks local data + key_size_of ks local data) (ad_of ks local data)
+      | None => True
+      end in
+    (bytes_ok aad -> record_is_canonical ->
+       encode ks enr_encode p local = data /\ authenticated_data enr_encode p = aad /\ packet_wf enr p)
+    /\ (authenticated_data enr_encode p = aad -> record_is_canonical).
+Proof.
+  intros ks enr enr_encode enr_decode local data p aad H. split.
+  - exact (encode_decode_gen ks enr enr_encode enr_decode local data p aad H).
+  - exact (encode_decode_needs_canonical_record ks enr enr_encode enr_decode local data p aad H).
+Qed.
+Print Assumptions C05_encode_decode_iff_record_canonical.
+
+(* the hypotheses are satisfiable: the toy record codec is canonical, the toy keystream consists of
+   bytes, and the encoding of the toy handshake (with a record) is a datagram of bytes that is
+   accepted *)
+Example C05_encode_decode_hypotheses_hold :
+  (forall b e, toy_enr_decode b = Some e -> toy_enr_encode e = b)
+  /\ (forall key iv i, byte_ok (toy_ks key iv i))
+  /\ (let d := encode toy_ks toy_enr_encode toy_packet (toy_bytes 32 77) in
+      bytes_ok d
+      /\ decode toy_ks toy_enr_decode (toy_bytes 32 77) d
+         = Ok (toy_packet, authenticated_data toy_enr_encode toy_packet)
+      /\ kind_record (p_kind toy_packet) = Some (toy_bytes 120 3)).
+Proof.
+  split.
+  { intros [|x t] e; cbn [toy_enr_decode]; [discriminate|].
+    destruct (N.eqb_spec x 192) as [->|]; [|discriminate]. intro H; injection H as <-. reflexivity. }
+  split; [intros key iv i; unfold toy_ks, byte_ok; apply N.mod_lt; discriminate|].
+  cbv zeta. split; [apply bytes_ok_check; vm_compute; reflexivity|].
+  split; vm_compute; reflexivity.
+Qed.
+Print Assumptions C05_encode_decode_hypotheses_hold.
 
 (* ---- the datagram equals the discv5.1 layout: iv, masked header, body; the header is
         "discv5" || version || flag || nonce || authdata-size || authdata ---- *)
@@ -243,6 +335,19 @@ Theorem C05_strict_handshake_authdata_sig_key :
 Proof. exact strict_handshake_authdata_sig_key. Qed.
 Print Assumptions C05_strict_handshake_authdata_sig_key.
 
+(* a handshake whose auth-data continue after signature and key with bytes that are not a valid
+   signed record (the record decoder refuses them) *)
+Theorem C05_strict_handshake_bad_record :
+  forall ks enr (enr_decode : bytes -> option enr) local data,
+    header_ok ks local data -> (asz_of ks local data <= remaining_of data)%nat ->
+    flag_of ks local data = 2%N ->
+    (34 + sig_size_of ks local data + key_size_of ks local data < asz_of ks local data)%nat ->
+    enr_decode (skipn (34 + sig_size_of ks local data + key_size_of ks local data) (ad_of ks local data))
+      = None ->
+    decode ks enr_decode local data = Err InvalidEnr.
+Proof. exact strict_handshake_bad_record. Qed.
+Print Assumptions C05_strict_handshake_bad_record.
+
 Theorem C05_strict_whoareyou_with_body :
   forall ks enr (enr_decode : bytes -> option enr) local data,
     header_ok ks local data -> flag_of ks local data = 1%N -> asz_of ks local data = 24%nat ->
@@ -262,6 +367,26 @@ Theorem C05_accepts_only_well_formed_datagrams :
          /\ (34 + sig_size_of ks local data + key_size_of ks local data <= asz_of ks local data)%nat)).
 Proof. exact decode_accepts_only. Qed.
 Print Assumptions C05_accepts_only_well_formed_datagrams.
+
+(* ... and for an accepted handshake: the fields are the slices of the auth-data, a record is
+   returned exactly when there are bytes after signature and key, and it is what the record
+   decoder returned for those bytes (so bytes the record decoder refuses are never accepted) *)
+Theorem C05_accepts_only_handshakes_with_valid_record :
+  forall ks enr (enr_decode : bytes -> option enr) local data p aad,
+    decode ks enr_decode local data = Ok (p, aad) -> flag_of ks local data = 2%N ->
+    exists src sig key rec,
+      p_kind p = KHandshake src sig key rec
+      /\ src = firstn 32 (ad_of ks local data)
+      /\ sig = firstn (sig_size_of ks local data) (skipn 34 (ad_of ks local data))
+      /\ key = firstn (key_size_of ks local data) (skipn (34 + sig_size_of ks local data) (ad_of ks local data))
+      /\ (34 + sig_size_of ks local data + key_size_of ks local data <= asz_of ks local data)%nat
+      /\ ((34 + sig_size_of ks local data + key_size_of ks local data < asz_of ks local data)%nat ->
+            exists e, enr_decode (skipn (34 + sig_size_of ks local data + key_size_of ks local data)
+                                        (ad_of ks local data)) = Some e /\ rec = Some e)
+      /\ ((34 + sig_size_of ks local data + key_size_of ks local data = asz_of ks local data)%nat ->
+            rec = None).
+Proof. exact decode_accepts_handshake. Qed.
+Print Assumptions C05_accepts_only_handshakes_with_valid_record.
 
 (* the hypotheses of the strictness theorems are satisfiable: datagrams built in the unmasked
    domain (static header, auth-data, body) and masked with the toy keystream *)
@@ -323,6 +448,36 @@ Example C05_strictness_hypotheses_hold :
 Proof. cbv zeta. toy. Qed.
 Print Assumptions C05_strictness_hypotheses_hold.
 
+(* the hypotheses of C05_strict_handshake_bad_record are satisfiable: a handshake with a 4-byte
+   signature, a 3-byte key and two more bytes that the toy record decoder refuses (and it is
+   rejected with InvalidEnr, by evaluation); the same datagram with the record bytes 192, 7 is
+   accepted with the record [7] *)
+Definition toy_handshake_datagram (record_bytes : bytes) : bytes :=
+  toy_datagram (toy_static protocol_id protocol_version 2 (41 + len record_bytes))
+               (toy_bytes 32 1 ++ [4; 3]%N ++ toy_bytes 7 3 ++ record_bytes) (toy_bytes 9 2).
+Example C05_strict_handshake_bad_record_hypotheses_hold :
+  (let d := toy_handshake_datagram [7; 7]%N in
+   header_ok toy_ks toy_local d /\ (asz_of toy_ks toy_local d <= remaining_of d)%nat
+   /\ flag_of toy_ks toy_local d = 2%N
+   /\ (34 + sig_size_of toy_ks toy_local d + key_size_of toy_ks toy_local d < asz_of toy_ks toy_local d)%nat
+   /\ toy_enr_decode (skipn (34 + sig_size_of toy_ks toy_local d + key_size_of toy_ks toy_local d)
+                            (ad_of toy_ks toy_local d)) = None
+   /\ decode toy_ks toy_enr_decode toy_local d = Err InvalidEnr)
+  /\ (let d := toy_handshake_datagram [192; 7]%N in
+      exists p aad, decode toy_ks toy_enr_decode toy_local d = Ok (p, aad)
+                    /\ flag_of toy_ks toy_local d = 2%N /\ kind_record (p_kind p) = Some [7%N]).
+Proof.
+  cbv zeta. split; [toy|].
+  exists {| p_iv := from_be toy_iv; p_nonce := toy_bytes 12 5;
+            p_kind := KHandshake (toy_bytes 32 1) (firstn 4 (toy_bytes 7 3)) (skipn 4 (toy_bytes 7 3))
+                                 (Some [7%N]);
+            p_message := toy_bytes 9 2 |},
+         (toy_iv ++ toy_static protocol_id protocol_version 2 43
+                 ++ toy_bytes 32 1 ++ [4; 3]%N ++ toy_bytes 7 3 ++ [192; 7]%N).
+  toy.
+Qed.
+Print Assumptions C05_strict_handshake_bad_record_hypotheses_hold.
+
 (* ---- the authenticated data handed to the handler are the received iv and the unmasked header
         (static header and auth-data), the body is what follows ---- *)
 Theorem C05_aad_is_received_bytes :
@@ -363,3 +518,39 @@ Example C05_wrong_id_rejected_example :
     (encode toy_ks toy_enr_encode toy_packet (toy_bytes 32 77)) = Err HeaderDecryptionFailed.
 Proof. vm_compute. reflexivity. Qed.
 Print Assumptions C05_wrong_id_rejected_example.
+
+(* ---- OBSERVATION (laxness of the real code, and the reason for the canonicity premise of
+        C05_encode_decode).  PacketKind::decode hands the rest of the auth-data to
+        <Enr>::decode(&mut &remaining_data[total_size..]) through a temporary cursor.  The decoder
+        of enr 0.13 reads ONE RLP list item from the front of that slice and Packet::decode never
+        looks at what is left.  Hence a handshake whose auth-data continue after the record is
+        accepted; the extra bytes are dropped from the returned Packet (they are still part of the
+        authenticated data handed to the handler), and the packet does not re-encode to the
+        datagram.  Shown on the model with a record codec that, like the real one, satisfies the two
+        laws of C05_decode_encode and ignores trailing bytes ([lax_enr_encode], [lax_enr_decode]:
+        the records are the RLP lists c0 and c1 01): the auth-data end with c0 09 09. ---- *)
+Theorem C05_noncanonical_handshake_accepted_observation :
+  (forall e, lax_enr_decode (lax_enr_encode e) = Some e)
+  /\ (forall e, lax_enr_encode e <> [])
+  /\ exists d p aad,
+       bytes_ok d
+       /\ (forall i, byte_ok (toy_ks (firstn 16 toy_local) (firstn 16 d) i))
+       /\ decode toy_ks lax_enr_decode toy_local d = Ok (p, aad)
+       /\ kind_record (p_kind p) = Some false
+       /\ encode toy_ks lax_enr_encode p toy_local <> d
+       /\ authenticated_data lax_enr_encode p <> aad
+       /\ (length (encode toy_ks lax_enr_encode p toy_local) + 2 = length d)%nat.
+Proof.
+  split; [exact lax_enr_round_trip|]. split; [exact lax_enr_encode_nonempty|].
+  exists (toy_handshake_datagram [192; 9; 9]%N),
+         {| p_iv := from_be toy_iv; p_nonce := toy_bytes 12 5;
+            p_kind := KHandshake (toy_bytes 32 1) (firstn 4 (toy_bytes 7 3)) (skipn 4 (toy_bytes 7 3))
+                                 (Some false);
+            p_message := toy_bytes 9 2 |},
+         (toy_iv ++ toy_static protocol_id protocol_version 2 44
+                 ++ toy_bytes 32 1 ++ [4; 3]%N ++ toy_bytes 7 3 ++ [192; 9; 9]%N).
+  split; [apply bytes_ok_check; vm_compute; reflexivity|].
+  split; [intro i; unfold toy_ks, byte_ok; apply N.mod_lt; discriminate|].
+  toy.
+Qed.
+Print Assumptions C05_noncanonical_handshake_accepted_observation.
